@@ -5,7 +5,12 @@ constructors), Model/UringAbi.lean (kernel ABI + intent), Model/UringRes.lean (s
 Tie:   64-byte images of the real constructors vs the Lean encoder; sc-shim log of real
        setup_io_uring/Drop on the running kernel (with/without SINGLE_MMAP, every failing mmap) vs the
        script; and, reported separately, the implementation-vs-oracle run: random batches on one
-       long-lived real ring vs the same operations by direct system calls in a twin directory."""
+       long-lived real ring vs the same operations by direct system calls in a twin directory.
+       Kernel contract (Model/Ring.lean kstep): the real get_next_sqe_slot / flush_submission_queue / get_next_cqe /
+       needs_wakeup over harness-owned ring memory against a simulated kernel obeying the contract (out-of-order
+       completion, completion ring full, overflow list, link chains, SQPOLL sleep) vs the Lean driver, judged by an
+       independent exactly-once oracle (checks/c18_kring.py); the contract's consequences on the REAL kernel:
+       `overflow` runs (more completions outstanding than the completion ring holds, reaped late)."""
 import os
 import shutil
 import tempfile
@@ -13,6 +18,12 @@ import time
 
 from . import common as C
 from . import c18_gen
+from . import c18_kring as K
+
+# the kring stream needs the cfg(tiny_std_verif) hook IoUring::verif_from_raw_parts: a build of its own, in the target
+# directory harness/c17 uses for the same flag (rusl is compiled once for both)
+RUSTFLAGS_VERIF = "--cfg %s --check-cfg cfg(%s)" % (C.GUARD_CFG, C.GUARD_CFG)
+TARGET_VERIF = os.path.join(C.HARNESS, "target", "cfg-verif")
 
 KIND_RANGE = {"fd": (0, 2**31 - 1), "optfd": (-1, 2**31 - 1), "u8": (0, 255), "u16": (0, 65535), "u32": (0, 2**32 - 1),
               "u64": (0, 2**64 - 1), "i16": (-32768, 32767), "i32": (-2**31, 2**31 - 1), "nni32": (0, 2**31 - 1),
@@ -26,6 +37,18 @@ def build(ctx, release=False):
         exe, err = C.cargo_build(ctx, "c18", release=release)
         if exe is not None or "failed to load manifest for workspace member" not in err:
             return exe, err
+        time.sleep(10)
+    return None, err
+
+
+def build_verif(ctx, release=False):
+    err = ""
+    for _ in range(4):
+        exe, err = C.cargo_build(ctx, "c18", release=release, rustflags=RUSTFLAGS_VERIF, extra_env={"CARGO_TARGET_DIR": TARGET_VERIF})
+        if exe is not None:
+            return os.path.join(TARGET_VERIF, "release" if release else "debug", "c18"), ""
+        if "failed to load manifest for workspace member" not in err:
+            break
         time.sleep(10)
     return None, err
 
@@ -98,18 +121,28 @@ def run(ctx):
                 "mmap none/0/1/2) on the running kernel; distinct_nontrivial = distinct (constructor) + (entries, flags, single, fail) classes; "
                 "oracle run: random batches of 1..8 independent or linked ops (openat/close/readv/writev/statx/mkdirat/unlinkat/renameat/"
                 "timeout) on one 8-entry ring vs std/direct syscalls in a twin directory, (user_data,res), read content, statx and final "
-                "directory trees compared")
+                "directory trees compared; kring stream: op sequences {g ud flags len, f, r, w, k n, x i, o n, i} over rings of 1..8 submission "
+                "entries and 1..16 completion entries, counters at the 32-bit wrap, SQPOLL/SQE128/CQE32, + (size, cq size, flags, sq wrapped, "
+                "cq wrapped, sq full, overflow used, overflow flushed, out-of-order completion, link waited, link cancelled, woken) classes; "
+                "overflow run: rounds of cq_entries+1..cq_entries+2*sq_entries independent ops submitted without reaping, then reaped")
     ctx.assumptions += [
         "Model/UringAbi.lean states the io_uring ABI (field per operand per opcode, C types) and the intent of each constructor; both are "
         "hand-written from the kernel sources / the constructors' documentation",
         "Gen/SqeCtors.lean is regenerated by checks/c18_gen.py (regex extractor over the struct literals; anything it cannot translate is a "
         "broken obligation); its fidelity is checked by the image correspondence of this run",
-        "the kernel executes an SQE like the direct system call and posts exactly one CQE per SQE: kernel behaviour, observed by the "
-        "oracle run, not proved (one_cqe_per_sqe_partial proves the ring half under that hypothesis)",
+        "KERNEL CONTRACT (Model/Ring.lean kstep: in-order consumption, exactly one completion per consumed entry with its user_data and the "
+        "direct call's result or -ECANCELED behind a failed link, any completion order, posting only while the completion ring has room, "
+        "FIFO overflow list otherwise): kernel behaviour, ASSUMED by cqe_exactly_once / cqe_complete_at_quiescence / link_chain_order / "
+        "one_cqe_per_sqe; its observable consequences are checked on the running kernel by the batch and overflow oracle runs, not proved",
+        "call granularity: the theorems read the completion at the moment get_next_cqe returns; below that granularity exactly-once is FALSE "
+        "for the code as it is (known finding: reap_reference_outlives_slot, streams kring-split-reap and refrace)",
+        "the simulated kernel of harness/c18/src/kring.rs is an independent Rust reading of the contract (checked against the Lean model "
+        "token by token and by the Python oracle of checks/c18_kring.py)",
         "Model/UringRes.lean describes setup_io_uring/Drop (checked by the sc-shim log of real runs on this kernel)",
         "bytes 30..31 of new_poll_add's image are not written by the constructor (u16 union member); observed zero",
     ]
-    ctx.trusted += ["checks/c18_gen.py (extractor)", "sc-shim syscall log; harness/c18 oracle (std::fs / raw syscalls as the reference)"]
+    ctx.trusted += ["checks/c18_gen.py (extractor)", "sc-shim syscall log; harness/c18 oracle (std::fs / raw syscalls as the reference)",
+                    "simulated kernel of harness/c18/src/kring.rs + the cfg(tiny_std_verif) hook constructor of /repo"]
     # 1. regenerate the constructor table from /repo
     try:
         ctors, changed = c18_gen.regenerate()
@@ -219,6 +252,28 @@ def run(ctx):
         ctx.sample({"case": tcases[0]})
     else:
         ctx.broken.append({"teardown": "io_uring_setup not available on this kernel"})
+    # 3b. the kernel contract: real ring methods over harness-owned memory + simulated kernel vs the Lean driver (krun2)
+    kcases = K.directed_cases() + K.gen_cases(ctx.rng, 12000 if quick else 250000, 56 if quick else 160)
+    split_cases = K.gen_cases(ctx.rng, 2500 if quick else 40000, 40 if quick else 120, split=True)
+    # the finding's minimal witness (= theorem reap_reference_outlives_slot) first
+    split_cases.insert(0, "kring 0 0 1 0 0 : g 1 0 7 : f : k 1 : x 0 : g 2 0 8 : f : k 1 : x 0 : g 3 0 9 : f : k 1 : x 0 : rb : o 1 : rr : r : r : r")
+    for release in (False, True):
+        mode = "release" if release else "debug"
+        kexe, err = build_verif(ctx, release)
+        if kexe is None:
+            ctx.broken.append({"harness_build_failed": err})
+            ctx.violation({"kind": "harness-build-failed", "mode": "cfg-" + mode}, {"error": err}, no_input=True)
+            return
+        C.correspond(ctx, "kring-" + mode, kcases, [kexe], drv, K.judge, K.sig_of)
+        C.correspond(ctx, "kring-malformed-" + mode, K.MALFORMED, [kexe], drv, K.judge, K.sig_of)
+        # below call granularity (the reference get_next_cqe returns is read after kernel steps): a KNOWN finding,
+        # the model (krun2) shows the same witnesses
+        C.correspond(ctx, "kring-split-reap-" + mode, split_cases, [kexe], drv, K.judge, K.sig_of)
+        if not release:
+            _, kouts, _ = C.run_filter([kexe], kcases)
+            K.coverage(ctx, kcases, kouts)
+            for c_, o_ in list(zip(kcases, kouts))[:1] + list(zip(kcases, kouts))[-2:]:
+                ctx.sample({"case": c_[:600], "implementation": o_[:600]})
     # 4. implementation vs oracle (reported separately from the model tie)
     tmp = tempfile.mkdtemp(prefix="c18-", dir=os.path.join(C.HARNESS, "target"))
     try:
@@ -227,6 +282,14 @@ def run(ctx):
         # requested ring sizes that are not powers of two / are large (every slot position gets used: nb batches >> ring size)
         lines += ["batch %s/c%d %d %d %d" % (tmp, i, ctx.rng.below(2**32), nb if e > 100 else nb // 3, e)
                   for i, e in enumerate([1, 3, 1000] if quick else [1, 2, 3, 5, 100, 1000, 1500, 3000])]
+        # the kernel contract on the REAL kernel where the batch run never gets: completion ring full, kernel overflow list,
+        # late reaping, asynchronous (out-of-order) completions
+        nover = len(lines)
+        lines += ["overflow %s/o%d %d %d %d" % (tmp, i, ctx.rng.below(2**32), rounds if quick else rounds * 12, e)
+                  for i, (e, rounds) in enumerate([(1, 150), (2, 100), (8, 60), (3, 60), (64, 12), (1000, 1)] + ([] if quick else [(5, 60), (256, 8), (1500, 1)]))]
+        # ... and the finding: a kernel overflow flush between get_next_cqe() and the read of the returned reference
+        nref = len(lines)
+        lines += ["refrace %d" % e for e in (1, 2, 8, 64)]
         rc, outs, errt = C.run_filter([exe], lines, timeout=(100 if quick else 1700))
         ctx.evaluations += len(lines)
         ctx.extra["oracle_run"] = outs
@@ -239,7 +302,27 @@ def run(ctx):
                 ctx.violation({"op": "netprobe", "kind": "connect/accept through the ring differ from the direct syscalls"},
                               {"case": lines[0], "implementation": np_, "expected_prefix": want,
                                "how_to_replay": "echo '%s' | %s" % (lines[0], exe)})
-            for ln, o in zip(lines[1:], outs[1:]):
+            for ln, o in zip(lines[nref:], outs[nref:]):
+                if o.startswith("setup-err"):
+                    continue
+                if not o.endswith("exactly-once=true"):
+                    ctx.violation({"op": "refrace", "kind": "held-reference-overwritten"},
+                                  {"case": ln, "implementation": o, "how_to_replay": "echo '%s' | %s" % (ln, exe),
+                                   "why": "on the running kernel: the completion read through the reference get_next_cqe returned changed when the kernel "
+                                          "flushed its overflow list (get_next_cqe had already advanced the shared head): one operation's completion is "
+                                          "lost, another is reaped twice"})
+            for ln, o in zip(lines[nover:nref], outs[nover:nref]):
+                if not o.startswith("agree "):
+                    ctx.violation({"op": "overflow", "kind": o.split(":")[0][:60] if o.startswith("mismatch") else o[:30]},
+                                  {"case": ln, "implementation": o, "how_to_replay": "echo '%s' | %s" % (ln, exe)})
+                else:
+                    kv = dict(x.split("=") for x in o.split()[1:])
+                    ctx.hist("oracle_overflow", "ops", int(kv["ops"]))
+                    ctx.hist("oracle_overflow", "through-overflow-or-late", int(kv["through-overflow-or-late"]))
+                    ctx.hist("oracle_overflow", "out-of-order-pairs", int(kv["out-of-order-pairs"]))
+                    ctx.count(("overflow", ln.split()[4], int(kv["through-overflow-or-late"]) > 0, int(kv["out-of-order-pairs"]) > 0))
+                    ctx.evaluations += int(kv["ops"])
+            for ln, o in zip(lines[1:nover], outs[1:nover]):
                 if not o.startswith("agree "):
                     ctx.violation({"op": "batch", "kind": o.split(":")[0].split(" op ")[-1][:40] if o.startswith("mismatch") else o[:30]},
                                   {"case": ln, "implementation": o, "how_to_replay": "echo '%s' | %s" % (ln, exe)})
